@@ -205,6 +205,9 @@ func genC17(c *Ctx) {
 	defer os.RemoveAll(dir)
 	k := &c17Ctx{c: c, dir: dir, rows: file.VerifFiletypes(), seen: map[string]bool{}}
 	R := c.R
+	// the displayed time is UTC wherever the program runs: this process (and the CLI runs below)
+	// are put into a zone that is not UTC, so that a conversion through local time shows
+	time.Local = time.FixedZone("C17", 5*3600+1800)
 
 	// ---------- corpus: known witnesses first ----------
 	vectors := []string{
@@ -243,6 +246,8 @@ func genC17(c *Ctx) {
 		k.describe("corpus-braces", []byte(s))
 		c17Parse(c, "corpus", []byte(s))
 	}
+
+	c17CallersCorpus(k)
 
 	// ---------- every version nibble x variant pattern x timestamp class x form x case x white space ----------
 	type tsClass struct {
@@ -1010,6 +1015,7 @@ func (k *c17Ctx) cli(tag string, texts [][]byte) {
 	defer cancel()
 	cmd := exec.CommandContext(ctx, k.c.Bin, args...)
 	cmd.Dir = dir
+	cmd.Env = append(os.Environ(), "TZ=Asia/Kolkata")
 	var out bytes.Buffer
 	cmd.Stdout = &out
 	code := 0
@@ -1031,6 +1037,7 @@ func (k *c17Ctx) stdin(tag string, mode int, text []byte) {
 	defer cancel()
 	cmd := exec.CommandContext(ctx, k.c.Bin)
 	cmd.Dir = k.dir
+	cmd.Env = append(os.Environ(), "TZ=America/St_Johns")
 	if mode == 1 {
 		p := filepath.Join(k.dir, "c17stdin.txt")
 		if os.WriteFile(p, text, 0o644) != nil {
@@ -1273,6 +1280,28 @@ func (g *c17Texts) next(kind, L int) []byte {
 	return t
 }
 
+// corpus of the callers' side: a fixed buffer refilled with equally long texts (v4, v7, no UUID,
+// v7) - an implementation that remembered its last answer by the ADDRESS and length of the buffer
+// reported the v7 as the v4, the junk as a UUID and rejected the UUID that followed the junk
+func c17CallersCorpus(k *c17Ctx) {
+	const (
+		v4   = "f47ac10b-58cc-4372-a567-0e02b2c3d479"
+		v7   = "017f22e2-79b0-7cc3-98c4-dc0c0c07398f" // RFC 9562 A.6
+		v1   = "c232ab00-9414-11ec-b3c8-9e6bdeced846" // A.1
+		junk = "this line is not a UUID at all, ok?!"
+	)
+	seq := [][]byte{[]byte(v4), []byte(v7), []byte(junk), []byte(v7), []byte(v1), []byte(strings.ToUpper(v1))}
+	for fn := 0; fn < 3; fn++ {
+		var steps []c17Step
+		for _, t := range seq {
+			steps = append(steps, c17Step{0, t})
+		}
+		c17Reuse(k.c, "corpus", fn, 0, make([]byte, 36), steps)
+		k.scan("corpus", fn, 37, seq)
+	}
+	k.files("corpus", 1, seq)
+}
+
 func genC17Callers(k *c17Ctx) {
 	c, R := k.c, k.c.R
 	scale := 1
@@ -1280,17 +1309,9 @@ func genC17Callers(k *c17Ctx) {
 		scale = 12
 	}
 	const (
-		v4   = "f47ac10b-58cc-4372-a567-0e02b2c3d479"
-		v7   = "017f22e2-79b0-7cc3-98c4-dc0c0c07398f"
-		junk = "this line is not a UUID at all, ok?!"
+		v4 = "f47ac10b-58cc-4372-a567-0e02b2c3d479"
+		v7 = "017f22e2-79b0-7cc3-98c4-dc0c0c07398f"
 	)
-	// ---------- corpus: a fixed buffer refilled with equally long texts (v4, v7, no UUID, v7) ----------
-	for fn := 0; fn < 3; fn++ {
-		c17Reuse(c, "corpus", fn, 0, make([]byte, 36), []c17Step{{0, []byte(v4)}, {0, []byte(v7)}, {0, []byte(junk)}, {0, []byte(v7)}})
-		k.scan("corpus", fn, 37, [][]byte{[]byte(v4), []byte(v7), []byte(junk), []byte(v7)})
-	}
-	k.files("corpus", 1, [][]byte{[]byte(v4), []byte(v7), []byte(junk), []byte(v7)})
-
 	Ls := []int{32, 36, 38, 45, 40, 47, 48, 64}
 	// ---------- twice ----------
 	pres := []string{"", "{", "urn:uuid:", "0", "abcdef", " ", "\n", "\xe2\x80", "-", "\x00"}
